@@ -190,9 +190,14 @@ func init() {
 							// before) and assign the variable first thing in their body: leaving such a loop
 							// means the variable has been assigned
 							assigned := map[*cfg.Block]bool{}
-							for _, lb := range fc.G.Blocks {
-								rs, ok := lb.Stmt.(*ast.RangeStmt)
-								if !ok || lb.Kind != cfg.KindRangeLoop || !fc.Live(lb) || len(rs.Body.List) == 0 {
+							for _, sl := range fc.loopsOver(func(ast.Expr) bool { return true }) {
+								// `for _, x := range S` and `for i := 0; i < len(S); i++` alike
+								lb := sl.Head
+								rs := struct {
+									Body *ast.BlockStmt
+									X    ast.Expr
+								}{sl.Body, sl.X}
+								if len(rs.Body.List) == 0 {
 									continue
 								}
 								first, ok := rs.Body.List[0].(*ast.AssignStmt)
